@@ -251,6 +251,11 @@ func (c *Variant) AsObject() any {
 //	Parameters:
 //		- value a value to be set
 func (c *Variant) SetAsObject(value any) {
+	// A variant set from itself stays as it is
+	// (storing the argument first would make it hold itself)
+	if v, ok := value.(*Variant); ok && v == c {
+		return
+	}
 	c.value = value
 
 	if value == nil {
